@@ -131,6 +131,31 @@ CLAIMED.update({
             "TLA+ chain/watcher spec + TLC schedule export + real watchers on a simulated chain + TLC trace validation", "7/C20"),
 })
 
+CLAIMED.update({
+    "C16": ("swapfsm", "model_checking",
+            FSM_TEXT + " For this property (bounded liveness on the code): every maximal exported schedule - i.e. every reachable (role, state, sub-step, crash point) class - is also run with the FAIR "
+            "CLOSURE appended (peer silent, ten minutes pass, pending HTLCs resolve, the chain advances past confirmation depth, payment window and CSV, services succeed, two restarts); at the end every "
+            "swap must be terminal and its channel released; a taker whose payment succeeded must have claimed with the preimage; a maker must have been paid or spent back.",
+            FSM_NOTE + " Liveness is bounded (one fixed closure of 15 steps), not a temporal proof; known findings: the two broadcast-then-persist crash windows and the record-without-state zombie.",
+            "TLA+ design model + TLC schedule export + fair-closure runs on the real code + TLC trace validation", "7/C16"),
+    "C22": ("swapfsm", "model_checking",
+            FSM_TEXT + " For this property: the maker schedules are executed once more with REAL-TIME retransmission (interval 25 ms, 80 ms between environment steps) on the real messages.Manager / "
+            "RedundantMessenger; every retransmitted copy is judged against the persisted state at that moment (allowed while waiting for the taker; at most one already-due copy afterwards) and a second live "
+            "retransmitter for a swap is a violation.",
+            FSM_NOTE + " This is the only check with wall-clock timing; its rule is timing-independent but a scheduling delay above the interval could in principle produce a second late copy.",
+            "TLA+ design model + TLC schedule export + real-time retransmission run + TLC trace validation", "7/C22"),
+    "C26": ("combo(swapfsm+peersync)", "model_checking",
+            FSM_TEXT + " For this property (FSM clause): configurations with two swaps let a maker's swap end in a CSV refund and then deliver every request kind from that peer / start local swaps to it: "
+            "the policy FILE must list the peer, requests must be refused with cancel, local initiations must fail. Peer-sync clause (engine peersync): P_C26_peersync - a poll or request_poll from a peer on the real "
+            "policy file's suspicious list sends nothing to that peer and leaves its record unchanged, also after a restart - checked on PeerSync.tla by TLC and on every real step by PeerSyncTrace.",
+            FSM_NOTE, "TLA+ design model + PeerSync.tla; TLC; real-code execution; trace validation", "7/C26"),
+    "C29": ("swapfsm", "model_checking",
+            FSM_TEXT + " For this property: upgrade configurations start the node on a database whose stored version is old or absent, drive a swap of every role into every reachable state (within the step bound) "
+            "and restart: the real VersionService.SafeUpgrade must write the current version iff no stored swap is unfinished, otherwise refuse and leave version and records unchanged (stored version before/after and "
+            "record digests are logged).",
+            FSM_NOTE, "TLA+ design model + TLC schedule export + real SafeUpgrade on real bbolt + TLC trace validation", "7/C29"),
+})
+
 NOT_YET = {}
 
 
